@@ -203,8 +203,9 @@ func hasAnyPrefix(s string, ps ...string) bool {
 
 func init() {
 	Register("C07", &CheckInfo{Level: "model_checking", QuickBudget: 10 * time.Minute, ThoroughBudget: 15 * time.Minute,
-		Rule: "round monitor derived from the statement (accepted report => tip>0 or scheduled-by-rotation or deposit, height <= expiry, not jailed, stake >= minimum recomputed from staking, never a withdrawal query; later report replaces the earlier; at EndBlock exactly the rounds with reports whose window closed produce one aggregate each, leave the store and their tips leave the oracle account; untouched tips stay; the cycle index changes only with no open window and then to (i+1) mod n) evaluated on (a) an exhaustive DFS depth 4 (quick) / 6 (thorough) over {Tip cyc/next/modeq/modeq2/dep/wd, Submit R1/R2 on cyc/next/modeq/dep/wd, gov cyclelist reorder/shrink/grow, gov spec window 0/5, min-stake change, Block 1s} from the standard state with state-hash dedup, and (b) all <=k-deviation histories around the shared skeletons",
+		Rule: "round monitor derived from the statement (accepted report => tip>0 or scheduled-by-rotation or deposit, height <= expiry, not jailed, stake >= minimum recomputed from staking, never a withdrawal query; later report replaces the earlier; at EndBlock exactly the rounds with reports whose window closed produce one aggregate each, leave the store and their tips leave the oracle account; untouched tips stay; the cycle index changes only with no open window and then to (i+1) mod n) evaluated on (a) an exhaustive DFS depth 4 (quick) / 6 (thorough) over {Tip cyc/next/modeq/modeq2/dep/wd, Submit R1/R2 on cyc/next/modeq/dep/wd, gov cyclelist reorder/shrink/grow, gov spec window 0/5, min-stake change (far above every stake, exactly R1's stake, one unit above it), Block 1s} from the standard state with state-hash dedup, and (b) all <=k-deviation histories around the shared skeletons",
 		Fn: func(rc *RunCtx) {
+			minStakeBoundaryEvents = true
 			mons := []Monitor{RoundMonitor{}}
 			depth := 4
 			if !rc.Quick() {
@@ -212,7 +213,7 @@ func init() {
 			}
 			focusedDFS(rc, "round-dfs", Config{}, true, nil, func(l string) bool {
 				return hasAnyPrefix(l, "Tip(cyc", "Tip(next", "Tip(modeq,50)", "Tip(modeq2", "Tip(dep1", "Tip(wd1", "Submit(R1,cyc,std)", "Submit(R2,cyc,std200)", "Submit(R1,next", "Submit(R1,modeq,std)", "Submit(R2,modeq,std200)",
-					"Submit(R1,dep1,valid)", "Submit(R1,wd1", "Cyclelist(gov,[btc,eth])", "Cyclelist(gov,+modeq)", "Cyclelist(gov,[eth])", "UpdateSpec(gov,modeq,w=0)", "UpdateSpec(gov,modeq,w=5)", "UpdateSpec(gov,spotprice,w=0)", "OracleParams(gov,minstake=1e12)")
+					"Submit(R1,dep1,valid)", "Submit(R1,wd1", "Cyclelist(gov,[btc,eth])", "Cyclelist(gov,+modeq)", "Cyclelist(gov,[eth])", "UpdateSpec(gov,modeq,w=0)", "UpdateSpec(gov,modeq,w=5)", "UpdateSpec(gov,spotprice,w=0)", "OracleParams(gov,minstake=1e12)", "OracleParams(gov,minstake=R1stake")
 			}, []time.Duration{time.Second}, mons, depth, []time.Duration{time.Second, time.Second, time.Second, time.Second})
 			runSkeletons(rc, mons, kOf(rc), skOracle...)
 		}})
